@@ -163,7 +163,7 @@ class Wild:
     class Meta:
         namespace = NS_A
 
-    attrs: dict[str, str] = field(default_factory=dict, metadata={"type": "Attributes"})
+    attrs: dict[str, str] = field(default_factory=dict, metadata={"type": "Attributes", "namespace": "##any"})
     head: Optional[str] = field(default=None, metadata={"type": "Element"})
     any: list[object] = field(default_factory=list, metadata={"type": "Wildcard", "namespace": "##any"})
 
@@ -266,11 +266,11 @@ class Gen:
         r = self.r
         k = r.random()
         if depth <= 0 or k < 0.35:
-            el = AnyElement(qname=self.any_qname(), text=r.choice([None, "t", "a b", "<&>"]))
+            el = AnyElement(qname=self.any_qname(), text=r.choice(["", "t", "a b", "<&>"]))
         else:
             el = AnyElement(
                 qname=self.any_qname(),
-                text=r.choice([None, "t"]),
+                text=r.choice(["", "t"]),
                 children=[self.any_value(depth - 1) for _ in range(r.randint(1, 2))],
                 attributes=self.any_attrs(),
             )
@@ -299,7 +299,11 @@ class Gen:
             non_none = [a for a in args if a is not type(None)]
             if type(None) in args and r.random() < 0.3:
                 return None
-            return self.value(r.choice(non_none), meta, depth)
+            pick = r.choice(non_none)
+            if pick is str and len(non_none) > 1:
+                # a str member of a union is only representable when no earlier member reads it
+                return r.choice(["t", "a b", "x-y", "é"])
+            return self.value(pick, meta, depth)
         if origin in (list, tuple):
             inner = args[0] if args else object
             if meta.get("tokens"):
